@@ -372,7 +372,8 @@ func crashAll(cfg byte, text string, full bool, get func() *crashEnv, discard fu
 	for i := 0; i < len(text); i++ {
 		sum += int(text[i])
 	}
-	if full {
+	if full && (strings.Contains(text, "mac") || sum%4 == 0) {
+		// (every text that defines or expands a macro by name, and a quarter of the others)
 		// C: code generation alone (LoadString, nothing is run except macro bodies), on an
 		// interpreter WITHOUT the call-budget hook: a macro that expands into a call of itself
 		// recurses inside the generator; with the hook the budget would end it and hide it
